@@ -11,6 +11,7 @@ var hostileWords = []string{
 	"010", "0x1F", "0b11", "0o17", "02134", "-010", "00", "08", "1e+5", "9007199254740993",
 	"a", "foo", "x_y", "NaN", "nan", "inf", "Inf", "Infinity", "-inf", "1e5", "1e-5", "1e400", "0x1p-2", "1_000", "007", "-0", "-0.0", "5.0", "0.001", "0.005", "1.005",
 	"2.675", "123456789.125", "1e21", "1e-7", "100000", "1000000", "9223372036854775807", "9223372036854775808", "-9223372036854775808", "-9223372036854775809",
+	"日本*", "é?x", "ÅÄÖ*", "*日", "日*本?", "ÿ", "aÿb", "ÿ*", "\\/", "a~0", "a:b~0", "b~00",
 	"1e6", "1000000.0", "-2e10", "1e15", "123456789.0", "1e20", "\\/x\\/", "\\/a", "a\\/",
 	"3.14159", "0.1", "12.50", "-7", "+7", "w*", "*", "?", "a?c", "*a*", "foo_*", "a%b", "a_b", "(b|d)", "a\\*", "a\\?", "a\\\\b", "a\\:b", "a\\ b", "\\-a", "a\\",
 	"é", "日本語", "😀", "ſ", "K", "\xff", "a\xc3", "a\x00b", "%!s(x)", "%!v(PANIC=x)", "x,y", "a;b", "a--b", "a/*b", "$$", "a'b", "a''b", "TO", "to", "AND", "and",
@@ -20,11 +21,13 @@ var hostileQuoted = []string{
 	`"x', 'y"`, `", 'z"`, `"a', 'b', 'c"`, `"x'' OR ''1''=''1"`, `"x''y"`, `"''"`, `"C:\tmp\"`, `"\"`, `"a\\"`,
 	`""`, `"*"`, `"a b"`, `"a*b"`, `"a?b"`, `"/re/"`, `"x:y"`, `"AND"`, `"a'b"`, `"a''b"`, `"a\b"`, `"a\\b"`, `"x,y"`, `"a;b--"`, `"/*x*/"`, `"$$"`, `"E'x'"`, `"5"`, `"5.0"`, `"NaN"`,
 	`"C:\temp\new"`, `"tab\there"`, `"a\x41b"`, `"\u00e9"`, `"\101"`, "\"a\x7fb\"", "\"a\x01b\"", "\"a\vb\"", "\"a\x1bb\"", `"007"`, `"9"`, `"1.5"`, `"+3"`, `"-0"`, `"1e3"`,
+	`"/"`, `"//"`, `"?"`, `"\"`, `"ÿ"`, `"a  b"`, `"a` + "\t" + `b c"`, `"日本*"`,
 	`"é日"`, `"a` + "\n" + `b"`, `"a` + "\t" + `b"`, `"%!"`, `"a` + "\x00" + `b"`, `"a` + "\xff" + `b"`, `"(b|d)"`, `"a_b"`, `"a%b"`, `'single'`, `'a b'`, `"it's"`,
 	`"` + strings.Repeat("n", 63) + `"`, `"` + strings.Repeat("n", 64) + `"`, `"` + strings.Repeat("é", 40) + `"`,
 }
 
-var hostileRegexps = []string{"/b/", "/re+/", "//", "/a\\/b/", "/a b/", "/[a-z]*/", "/a'b/", "/*/", "/?/"}
+var hostileRegexps = []string{"/b/", "/re+/", "//", "/a\\/b/", "/a b/", "/[a-z]*/", "/a'b/", "/*/", "/?/",
+	"/a\\\\/", "/a\\\\\\/b/", "/\\\\\\//", "/a\\\\\\\\/", "/\\\\\\\\\\/x/", "/日本*/", "/é\\/ü/"}
 
 // ValueText is one term text from G4.
 func ValueText(r *Rng) string {
